@@ -147,6 +147,9 @@ def shadow(modname: str, rebind: dict | None = None, cuts: dict | None = None, c
         exec(code, mod.__dict__)
         if rebind and isinstance(stmt, (ast.Import, ast.ImportFrom, ast.Try, ast.If)):
             mod.__dict__.update(rebind)
+    # the module's own definitions that a rebind replaces (a function stubbed by its contract
+    # while it is itself the target) stay reachable here
+    mod.__pyvc_orig__ = {k: mod.__dict__[k] for k in (rebind or {}) if k in mod.__dict__}
     if rebind:
         mod.__dict__.update(rebind)
     mod.__pyvc_dropped__ = dropped
